@@ -1,5 +1,10 @@
 //! vh-sdl: C17.
 mod c17;
+mod diff;
+mod nm;
+mod src;
+mod stat;
+mod witness;
 
 fn main() {
     let id = std::env::args().nth(1).unwrap_or_default();
